@@ -870,6 +870,27 @@ def decision_paths(fn, limit=400, with_calls=False, with_env=False, start=0, sto
                         tgt = b_
                 go(tgt if tgt is not None else t["otherwise"], env, conds, seen)
                 return
+            # the same value tested a second time on this path (a bool local used by two `if`s): only the edge that
+            # agrees with the first decision is feasible.  Values read through a pointer are excluded (the pointee may
+            # have been changed in between).
+            if not any(isinstance(x, tuple) and x and x[0] in ("deref", "call_mut") for x in walk(d)):
+                prev = [c_ for c_ in conds if c_[0] == d]
+                if prev:
+                    pv, pall = prev[-1][1], prev[-1][2]
+                    feas = []
+                    for v, b_ in t["arms"]:
+                        if (pv is not None and v == pv) or (pv is None and v not in pall):
+                            feas.append((v, b_))
+                    if pv is None and not feas:
+                        # previous decision was `otherwise`; this switch's otherwise covers the remaining values
+                        go(t["otherwise"], env, conds, seen)
+                        return
+                    if pv is not None and not feas:
+                        go(t["otherwise"], env, conds, seen)
+                        return
+                    if len(feas) == 1 and pv is not None:
+                        go(feas[0][1], env, conds, seen)
+                        return
             done = set()
             for v, b_ in t["arms"]:
                 go(b_, env, conds + [(d, v, allv)], seen)
